@@ -10,7 +10,9 @@
    unchanged (Prime_lemmas.v).  Landing on real streams (= the plain seek's)
    and the values (bit-identical outside the region, window-weighted cross-fade
    inside) are established per run on twin handles. *)
-From VV Require Import Blocking Blocking_lemmas Overlap Overlap_lemmas VFile Seek_lemmas Read_lemmas Prime_lemmas.
+From VV Require Import Blocking Blocking_lemmas Overlap Overlap_lemmas VFile VFileDemo Seek_lemmas Read_lemmas Prime_lemmas Lap_lemmas.
+From Coq Require Import ZArith List Bool Lia.
+Import ListNotations.
 Local Open Scope Z_scope.
 
 Theorem C19_lapout_contiguous :
@@ -62,3 +64,47 @@ Theorem C19_priming_keeps_reported_position :
     exists sp, prime (read_fuel s) s = PReady sp /\ v_pcm sp = v_pcm s /\ 0 < pending sp.
 Proof. exact priming_keeps_position. Qed.
 Print Assumptions C19_priming_keeps_reported_position.
+
+(* ---- the lapped seek itself (VFile.seek_lap: set up, take the lapping data, plain seek, prime without
+   spanning links, expose the buffer), tied to ov_pcm_seek_lap / ov_pcm_seek_page_lap / ov_raw_seek_lap per run *)
+
+(* _ov_initprime after a truthful seek succeeds, keeps the reported position and ends with samples pending *)
+Theorem C19_initprime_keeps_reported_position :
+  forall (tail : list page) s pos,
+    Truthful tail s pos -> (2 <= length (stream tail s))%nat ->
+    forall fuel, (3 <= fuel)%nat ->
+    exists sp, initprime fuel s = (0, sp) /\ v_pcm sp = v_pcm s /\ 0 < dec_pcmout (v_dec sp) /\
+               cur_link sp = cur_link s /\ v_hs sp = v_hs s.
+Proof. exact initprime_keeps_position. Qed.
+Print Assumptions C19_initprime_keeps_reported_position.
+
+(* a lapped sample seek lands where the plain seek lands: it returns 0 and reports exactly the target, whenever
+   the set-up succeeds and the plain seek from the state it leaves meets seek_hyps (intact run to the target)
+   with two packets to prime from *)
+Theorem C19_lapped_seek_lands_on_target :
+  forall s pos, lap_hyps s pos = true ->
+    fst (pcm_seek_lap s pos) = 0 /\ v_pcm (snd (pcm_seek_lap s pos)) = pos.
+Proof. exact lap_seek_checked. Qed.
+Print Assumptions C19_lapped_seek_lands_on_target.
+
+(* it fails wherever the plain seek (applied after the set-up) fails, with the same code and state *)
+Theorem C19_lapped_seek_fails_like_plain :
+  forall s pos s2 rc s3,
+    OPENED <= v_rs s -> 0 <= pos <= pcm_total s -> lap_pre s = Some s2 ->
+    pcm_seek s2 pos = (rc, s3) -> rc <> 0 -> pcm_seek_lap s pos = (rc, s3).
+Proof. exact lap_seek_fails_like_plain. Qed.
+Print Assumptions C19_lapped_seek_fails_like_plain.
+
+(* and rejects what the plain seek rejects before touching anything *)
+Theorem C19_lapped_seek_rejects_out_of_range :
+  forall s pos, pos < 0 \/ pos > pcm_total s ->
+    pcm_seek_lap s pos = (OV_EINVAL_, s) /\ pcm_seek_page_lap s pos = (OV_EINVAL_, s).
+Proof. exact lap_seek_rejects_out_of_range. Qed.
+Print Assumptions C19_lapped_seek_rejects_out_of_range.
+
+(* non-vacuity: from a handle in mid-stream (sought to 300, ten samples read) the hypotheses hold for 400 and the
+   lapped seek lands there as the plain one does *)
+Example C19_lap_hyps_nonvacuous :
+  let s := snd (fst (read_float 9 (snd (pcm_seek demo2 300)) 10), snd (read_float 9 (snd (pcm_seek demo2 300)) 10)) in
+  lap_hyps s 400 = true /\ v_pcm (snd (pcm_seek_lap s 400)) = 400 /\ v_pcm (snd (pcm_seek s 400)) = 400.
+Proof. vm_compute. repeat split. Qed.
